@@ -563,6 +563,12 @@ end
 theorem readValue_le (p : P) : Le (readValue cm p.vfuel p).2 p :=
   (readValue_spec cm hnum p.vfuel p (by have := vfuel_ok p; omega)).1
 
+theorem optDefault_le (b : UInt8) (p : P) : Le (optDefault cm b p).2 p := by
+  unfold optDefault
+  split
+  · exact (readValue_spec cm hnum p.vfuel (reRead p) (by have := vfuel_ok p; have := (reRead_le p).2; omega)).1.trans (reRead_le p)
+  · exact Le.refl p
+
 /-! ### arguments and directive uses -/
 
 /-- `readArgValue`: only consumes; without an error the (non-empty) argument name was consumed -/
